@@ -216,6 +216,9 @@ func runC01(c *Ctx) {
 	runD5(c, "C01", c.Pick(2, 3), func(np NamedProg, txts []string) {
 		semUnit(c, "C01", np.P, txts, false, false)
 	})
+	// D4 captures and back-references (spans only here; C02 compares the bindings): a back-reference
+	// that sees a binding of an abandoned path matches where it must fail
+	runGram(c, "C01", "D4", gramD4(true), c.Pick(4, 5), texts("ab", 4), false, true, 0)
 	// D7 nullable bodies (the termination driver of C10, here with the semantic oracle)
 	runGram(c, "C01", "D7", gramD7(), c.Pick(3, 4), texts("a\n", 4), false, false, 0)
 	if c.Level("D7:fixed") {
